@@ -174,12 +174,15 @@ impl Response {
             if line == "\r\n" {
                 break;
             } else {
-                safe_assert(line.len() >= 2)?;
-                let line_without_crlf = &line[0..line.len() - 2];
-                let line_parts: Vec<&str> = line_without_crlf.splitn(2, ':').collect();
+                let line_without_crlf = line
+                    .strip_suffix("\r\n")
+                    .ok_or(ResponseError::Response)?;
+                let (name, value) = line_without_crlf
+                    .split_once(':')
+                    .ok_or(ResponseError::Response)?;
                 headers.add(
-                    HeaderType::from(line_parts[0]),
-                    line_parts[1].trim_start_matches(|c| c == ' ' || c == '\t'),
+                    HeaderType::from(name),
+                    value.trim_start_matches(|c| c == ' ' || c == '\t'),
                 );
             }
         }
